@@ -927,18 +927,17 @@ restore_ownership (void *data)
   OwnershipRestoreData *d = data;
   DBusList *link;
 
-  _dbus_assert (d->service_link != NULL);
   _dbus_assert (d->owner_link != NULL);
   
   if (d->service->owners == NULL)
     {
       _dbus_assert (d->hash_entry != NULL);
       bus_service_relink (d->service, d->hash_entry);
+      d->hash_entry = NULL;
     }
-  else
-    {
-      _dbus_assert (d->hash_entry == NULL);
-    }
+  /* else the service was never unlinked from the registry, and the
+   * unused preallocated hash entry is released by
+   * free_ownership_restore_data() */
   
   /* We don't need to send messages notifying of these
    * changes, since we're reverting something that was
@@ -954,17 +953,16 @@ restore_ownership (void *data)
     }
   
   _dbus_list_insert_before_link (&d->service->owners, link, d->owner_link);
+  /* the queue owns a reference (dropped by bus_service_unlink_owner()) */
+  bus_owner_ref (d->owner);
 
-  /* Note that removing then restoring this changes the order in which
-   * ServiceDeleted messages are sent on destruction of the
-   * connection.  This should be OK as the only guarantee there is
-   * that the base service is destroyed last, and we never even
-   * tentatively remove the base service.
+  /* The connection's list of owned services still contains this
+   * service: it is only removed when the last reference to the owner
+   * goes away (bus_owner_unref()), and the restore data has been
+   * holding one since before the owner was unlinked.  Adding it again
+   * would leave a second entry behind.  The unused service_link is
+   * freed by free_ownership_restore_data().
    */
-  bus_connection_add_owned_service_link (d->owner->conn, d->service_link);
-  
-  d->hash_entry = NULL;
-  d->service_link = NULL;
   d->owner_link = NULL;
 }
 
